@@ -111,3 +111,31 @@ for example, want in (("a/b", "http://h/t/a%2Fb"), ("a?b", "http://h/t/a%3Fb"), 
 
     run()
     show(f"KF-C06-13 path example {example!r}", seen[0], want)
+
+
+# ---- review round 2 (standalone: only the helpers of this file)
+
+# KF-C06-R1  a percent-escaped reserved character in the configured base URL is decoded (prepare_url: unquote(urljoin(...)))
+raw = {"openapi": "3.0.2", "info": {"title": "t", "version": "1"}, "paths": {"/t": {"get": {"responses": {"200": {"description": "OK"}}}}}}
+o = schemathesis.openapi.from_dict(raw).configure(base_url="http://h/a%2Fb/")["/t"]["GET"]
+show("KF-C06-R1 base URL 'http://h/a%2Fb/'", wire(o.Case())[0], "http://h/a%2Fb/t   ('/a%2Fb' is one segment, '/a/b' are two)")
+
+# KF-C06-R2 / R3  the style serializer is chosen by the literal `schema.type`: a 3.1 type list or an allOf wrapper disables it
+for title, version, schema in (
+    ("KF-C06-R2 3.1 `type: [array, null]`, form explode=false", "3.1.0", {"type": ["array", "null"], "items": {"type": "string", "enum": ["x"]}, "minItems": 2, "maxItems": 2}),
+    ("KF-C06-R3 `allOf: [{type: array}]`, form explode=false", "3.0.2", {"allOf": [{"type": "array", "items": {"type": "string", "enum": ["x"]}, "minItems": 2, "maxItems": 2}]}),
+):
+    raw = {"openapi": version, "info": {"title": "t", "version": "1"}, "paths": {"/t": {"get": {"parameters": [
+        {"name": "q", "in": "query", "required": True, "style": "form", "explode": False, "schema": schema}], "responses": {"200": {"description": "OK"}}}}}}
+    o = schemathesis.openapi.from_dict(raw).configure(base_url="http://h")["/t"]["GET"]
+    show(title, wire(o.Case(query=generated(o, "query", {"q": ["x", "x"]})))[0], "http://h/t?q=x%2Cx   (one pair, comma-separated)")
+
+# KF-C06-R4  as_curl_command() (sanitisation on by default) filters case.query / case.cookies in place: the next send carries '[Filtered]'
+raw = {"openapi": "3.0.2", "info": {"title": "t", "version": "1"}, "paths": {"/t": {"get": {"parameters": [
+    {"name": "api_key", "in": "query", "required": True, "schema": STR}, {"name": "session", "in": "cookie", "required": True, "schema": STR}],
+    "responses": {"200": {"description": "OK"}}}}}}
+o = schemathesis.openapi.from_dict(raw).configure(base_url="http://h")["/t"]["GET"]
+case = o.Case(query={"api_key": "abc"}, cookies={"session": "xyz"})
+first = wire(case)
+case.as_curl_command()
+show("KF-C06-R4 second request of one case, after as_curl_command()", wire(case)[:2], first[:2])
